@@ -21,12 +21,83 @@ def sf_isnan(ex, st, x):
     return vbool(FALSE)
 
 
+def same_val(a, b):
+    """Structural identity of two symbolic values (NaN is the same as NaN; lists: same length, same cells)."""
+    if type(a.kind) is not type(b.kind):
+        k = join_kinds(a.kind, b.kind)
+        a, _ = coerce(a, k)
+        b, _ = coerce(b, k)
+    if isinstance(a.kind, KList):
+        i = z3.Int(uid("sm"))
+        cell = same_val(list_get(a, i), list_get(b, i))
+        return and_(a.terms[0] == b.terms[0], z3.ForAll([i], implies(and_(i >= 0, i < a.terms[0]), cell)))
+    if isinstance(a.kind, KFloat):
+        return and_(a.terms[0] == b.terms[0], or_(a.terms[0], a.terms[1] == b.terms[1]))
+    if isinstance(a.kind, KTuple):
+        return and_(*[same_val(x, y) for x, y in zip(tuple_items(a), tuple_items(b))])
+    return and_(*[x == y for x, y in zip(a.terms, b.terms)])
+
+
+def sf_same(ex, st, a, b):
+    return vbool(same_val(a, b))
+
+
+def _heap_pair(ex, st, spec):
+    cls, field = spec.split(".")
+    cls2 = ex.owner_class(cls, field) or cls
+    new = ex.heap_arrays(st, cls2, field)
+    old = ex.heap_arrays(ex.old_state, cls2, field)
+    return ex.ctx.reg.fields[(cls2, field)], new, old
+
+
+def sf_unchanged(ex, st, *names):
+    """unchanged('Cls.field', ...): the whole field map is as at entry."""
+    out = []
+    for n in names:
+        k, new, old = _heap_pair(ex, st, n.py)
+        out += [x == y for x, y in zip(new, old) if not x.eq(y)]
+    return vbool(and_(*out))
+
+
+def sf_unchanged_except(ex, st, name, *objs):
+    """unchanged_except('Cls.field', o1, o2, ...): every object other than o1.. has the field as at entry."""
+    k, new, old = _heap_pair(ex, st, name.py)
+    if all(x.eq(y) for x, y in zip(new, old)):
+        return vbool(TRUE)
+    r = z3.Int(uid("ue"))
+    diff = and_(*[r != o.terms[0] for o in objs])
+    return vbool(z3.ForAll([r], implies(diff, and_(*[z3.Select(x, r) == z3.Select(y, r) for x, y in zip(new, old)]))))
+
+
+def sf_unchanged_old(ex, st, *names):
+    """unchanged_old('Cls.field', ...): every object that existed at entry has the field as at entry
+    (objects allocated since may hold anything)."""
+    a0 = ex.old_state.vars["$alloc"].terms[0]
+    out = []
+    for n in names:
+        k, new, old = _heap_pair(ex, st, n.py)
+        if all(x.eq(y) for x, y in zip(new, old)):
+            continue
+        r = z3.Int(uid("uo"))
+        out.append(z3.ForAll([r], implies(r < a0, and_(*[z3.Select(x, r) == z3.Select(y, r) for x, y in zip(new, old)]))))
+    return vbool(and_(*out))
+
+
+def sf_fdiv(ex, st, x, y):
+    """x / y as the uninterpreted division symbol the code encoding also uses (pyvc.values.FDIV)"""
+    from .values import FDIV
+    nx, xv = to_float(x)
+    ny, yv = to_float(y)
+    return vfloat(FDIV(xv, yv), or_(nx, ny))
+
+
 def sf_at_entry(ex, st, *a):
     raise OutOfSubset("at_entry is a special form")
 
 
 def install(reg):
-    reg.specfuncs.update(isnew=sf_isnew, isold=sf_isold, isnan=sf_isnan)
+    reg.specfuncs.update(isnew=sf_isnew, isold=sf_isold, isnan=sf_isnan, same=sf_same, unchanged=sf_unchanged,
+                         unchanged_except=sf_unchanged_except, unchanged_old=sf_unchanged_old, fdiv=sf_fdiv)
 
 
 # ---------------------------------------------------------------- folds over float lists
